@@ -2,7 +2,9 @@
 import ast
 import concurrent.futures
 import itertools
+import collections
 import json
+import sqlite3
 import os
 import subprocess
 import sys
@@ -101,6 +103,9 @@ def pools(mod, k):
                   T(mod.K.m, {"self": mod.K(), "x": {"k": [None, 1]}}, [])],
         "td_name_collision": [T(mod.f, {"a": {"p": 1}, "b": None}, 1), T(mod.h, {"a": {"z": 1.5}}, 2)],
         "mi_large_union": [T(mod.h, {"a": c()}, 0) for c in (mod.X, mod.Y, mod.Z, mod.X2, mod.Y2, mod.Z2)],
+        # positions that only ever see containers of two kinds (lists and sets, tuples of two lengths, dict and defaultdict)
+        "container_families": [T(mod.h, {"a": [1, 2]}, (1,)), T(mod.h, {"a": {"s"}}, ("s", 2)), T(mod.h, {"a": ["x"]}, {"k": 1}),
+                               T(mod.h, {"a": {2.5}}, collections.defaultdict(int, {"k": 1}))],
     }
 
 
@@ -159,6 +164,15 @@ def run(pid, tier, seed):
                     s1.add(b1)
                     if b2:
                         SQLiteStore.make_store(db).add(b2)                     # second batch through another connection
+                    if vi > 0:
+                        # recorded on different days: the query orders by date, so the rows come back in another order
+                        conn = sqlite3.connect(db)
+                        ids = [r[0] for r in conn.execute("select rowid from monkeytype_call_traces")]
+                        for rid in ids:
+                            conn.execute("update monkeytype_call_traces set created_at = ? where rowid = ?",
+                                         ("2024-01-%02d 10:00:00.000000" % chk.rng.randrange(1, 6), rid))
+                        conn.commit()
+                        conn.close()
                     for rew in ("default", "norewrite"):
                         for hs in ((0, 1) if quick else (0, 1, 2, 3, 7, 11, 42, 123)):
                             jobs.append((pname, k, rew, vi, hs, db))
